@@ -160,6 +160,8 @@ public:
     void allocate(size_t max_size)
     {
         assert(!data_);
+        // the cursors of a previous allocation may lie beyond the new capacity
+        begin_ = end_ = 0;
         max_size_ = max_size;
         capacity_ = round_up_to_power_of_two(max_size + 1);
         mask_ = capacity_ - 1;
